@@ -38,20 +38,20 @@ Proof. reflexivity. Qed.
 Lemma conv_s_if : forall l c a b k, conv_s (SIf l c a b) k = conv_b a k && conv_b b k.
 Proof. reflexivity. Qed.
 
-Definition conv_while (c : expr) (b : list stmt) (knn : list var) : bool :=
-  let X := live_while c b knn in
-  subset (while_step c (live_b b) knn X) X && conv_b b (mk X knn X).
-Definition conv_for (x : var) (b : list stmt) (knn : list var) : bool :=
-  let Y := live_for x b knn in
-  subset (for_step x (live_b b) knn Y) Y && conv_b b (mk Y knn Y).
+Definition conv_while (c : expr) (b els : list stmt) (k : conts) : bool :=
+  let X := live_while c b els k in
+  subset (while_step c (live_b b) (kn k) (live_b els k) X) X && conv_b b (mk X (kn k) X) && conv_b els k.
+Definition conv_for (x : var) (b els : list stmt) (k : conts) : bool :=
+  let Y := live_for x b els k in
+  subset (for_step x (live_b b) (kn k) (live_b els k) Y) Y && conv_b b (mk Y (kn k) Y) && conv_b els k.
 
-Lemma live_s_while : forall l c b k, live_s (SWhile l c b) k = live_while c b (kn k).
+Lemma live_s_while : forall l c b e k, live_s (SWhile l c b e) k = live_while c b e k.
 Proof. reflexivity. Qed.
-Lemma conv_s_while : forall l c b k, conv_s (SWhile l c b) k = conv_while c b (kn k).
+Lemma conv_s_while : forall l c b e k, conv_s (SWhile l c b e) k = conv_while c b e k.
 Proof. reflexivity. Qed.
-Lemma live_s_for : forall l x e b k, live_s (SFor l x e b) k = vars_e e ++ live_for x b (kn k).
+Lemma live_s_for : forall l x e b els k, live_s (SFor l x e b els) k = vars_e e ++ live_for x b els k.
 Proof. reflexivity. Qed.
-Lemma conv_s_for : forall l x e b k, conv_s (SFor l x e b) k = conv_for x b (kn k).
+Lemma conv_s_for : forall l x e b els k, conv_s (SFor l x e b els) k = conv_for x b els k.
 Proof. reflexivity. Qed.
 
 Lemma nocall_cons : forall s r, nocall (s :: r) = nocall_s s && nocall r.
@@ -100,20 +100,12 @@ Section Rel.
   Qed.
 
   Definition loop_live (loop : loopk -> store -> list Z -> res) : Prop :=
-    (forall c b knn s1 s2 o, nocall b = true -> conv_while c b knn = true ->
-        rel (live_while c b knn) s1 s2 ->
-        res_rel (mk knn [] []) (loop (KWhile c b) s1 o) (loop (KWhile c b) s2 o))
-    /\ (forall x i hi b knn s1 s2 o, nocall b = true -> conv_for x b knn = true ->
-        rel (live_for x b knn) s1 s2 ->
-        res_rel (mk knn [] []) (loop (KFor x i hi b) s1 o) (loop (KFor x i hi b) s2 o)).
-
-  Lemma res_rel_loop : forall knn k r1 r2,
-    res_rel (mk knn [] []) r1 r2 -> fst (fst r1) <> Brk -> fst (fst r1) <> Cont -> kn k = knn -> res_rel k r1 r2.
-  Proof.
-    intros knn k [[sg1 t1] o1] [[sg2 t2] o2] [H1 [H2 H3]] NB NC E. simpl in *.
-    split; [exact H1|]. split; [exact H2|]. simpl. destruct sg1; simpl in *; try exact I; try congruence.
-    rewrite E. exact H3.
-  Qed.
+    (forall c b e k s1 s2 o, nocall b = true -> nocall e = true -> conv_while c b e k = true ->
+        rel (live_while c b e k) s1 s2 ->
+        res_rel k (loop (KWhile c b e) s1 o) (loop (KWhile c b e) s2 o))
+    /\ (forall x i hi b e k s1 s2 o, nocall b = true -> nocall e = true -> conv_for x b e k = true ->
+        rel (live_for x b e k) s1 s2 ->
+        res_rel k (loop (KFor x i hi b e) s1 o) (loop (KFor x i hi b e) s2 o)).
 
   Lemma res_rel_err : forall k sg s1 s2 o, (match sg with Norm | Brk | Cont => False | _ => True end) ->
     res_rel k (sg, s1, o) (sg, s2, o).
@@ -121,13 +113,13 @@ Section Rel.
     intros. split; [reflexivity|]. split; [reflexivity|]. simpl. destruct sg; simpl; try exact I; contradiction.
   Qed.
 
-  Lemma live_sound_struct : forall loop, loop_live loop -> loop_sig loop ->
+  Lemma live_sound_struct : forall loop, loop_live loop ->
     (forall s k s1 s2 o, nocall_s s = true -> conv_s s k = true -> rel (live_s s k) s1 s2 ->
         res_rel k (exec_s loop s s1 o) (exec_s loop s s2 o))
     /\ (forall ss k s1 s2 o, nocall ss = true -> conv_b ss k = true -> rel (live_b ss k) s1 s2 ->
         res_rel k (exec_b loop ss s1 o) (exec_b loop ss s2 o)).
   Proof.
-    intros loop [LW LFo] LS.
+    intros loop [LW LFo].
     apply (stmt_blk_ind
              (fun s => forall k s1 s2 o, nocall_s s = true -> conv_s s k = true -> rel (live_s s k) s1 s2 ->
                                          res_rel k (exec_s loop s s1 o) (exec_s loop s s2 o))
@@ -165,15 +157,15 @@ Section Rel.
       + apply Hb; try assumption. eapply rel_sub; [exact H|]. intros; apply in_or_app; right; apply in_or_app; auto.
       + apply Ha; try assumption. eapply rel_sub; [exact H|]. intros; apply in_or_app; right; apply in_or_app; auto.
     - (* while *)
-      intros l c b Hb k s1 s2 o NC CV H. rewrite live_s_while in H. rewrite conv_s_while in CV.
-      simpl in NC. simpl exec_s.
-      eapply res_rel_loop; [apply LW; eassumption | apply LS | apply LS | reflexivity].
+      intros l c b e Hb He k s1 s2 o NC CV H. rewrite live_s_while in H. rewrite conv_s_while in CV.
+      simpl in NC. apply andb_true_iff in NC. destruct NC as [NCb NCe]. simpl exec_s.
+      apply LW; assumption.
     - (* for *)
-      intros l x e b Hb k s1 s2 o NC CV H. rewrite live_s_for in H. rewrite conv_s_for in CV.
-      simpl in NC. simpl exec_s.
+      intros l x e b els Hb He k s1 s2 o NC CV H. rewrite live_s_for in H. rewrite conv_s_for in CV.
+      simpl in NC. apply andb_true_iff in NC. destruct NC as [NCb NCe]. simpl exec_s.
       rewrite (eval_rel _ s1 s2 e H) by (intros; apply in_or_app; auto).
       destruct (eval s2 e) as [hi|]; [|apply res_rel_err; exact I].
-      eapply res_rel_loop; [apply LFo; try eassumption | apply LS | apply LS | reflexivity].
+      apply LFo; try assumption.
       eapply rel_sub; [exact H|]. intros; apply in_or_app; auto.
     - (* return *)
       intros l e k s1 s2 o _ _ H. simpl in H. simpl.
@@ -200,48 +192,50 @@ Section Rel.
   Proof.
     induction n as [|m IH].
     - split; intros; simpl; (split; [reflexivity|]; split; [reflexivity|]; exact I).
-    - destruct (live_sound_struct _ IH (exec_k_sig m)) as [_ HB]. destruct IH as [IW IF]. split.
-      + intros c b knn s1 s2 o NC CV H. unfold conv_while in CV. apply andb_true_iff in CV.
-        destruct CV as [CS CB]. pose proof (proj1 (subset_In _ _) CS) as CS'. clear CS. rename CS' into CS. unfold while_step in CS.
-        set (X := live_while c b knn) in *.
+    - destruct (live_sound_struct _ IH) as [_ HB]. destruct IH as [IW IF]. split.
+      + intros c b e k s1 s2 o NCb NCe CV H. pose proof CV as CV0. unfold conv_while in CV.
+        apply andb_true_iff in CV. destruct CV as [CV CE]. apply andb_true_iff in CV. destruct CV as [CS CB].
+        pose proof (proj1 (subset_In _ _) CS) as CS'. clear CS. rename CS' into CS. unfold while_step in CS.
+        set (X := live_while c b e k) in *.
         simpl.
         rewrite (eval_rel _ s1 s2 c H) by (intros; apply CS; apply in_or_app; auto).
         destruct (eval s2 c) as [v|]; [|apply res_rel_err; exact I].
         destruct (Z.eqb v 0).
-        * split; [reflexivity|]. split; [reflexivity|]. simpl.
+        * apply HB; try assumption.
           eapply rel_sub; [exact H|]. intros; apply CS; apply in_or_app; right; apply in_or_app; auto.
-        * assert (HB' : res_rel (mk X knn X) (exec_b (exec_k m) b s1 o) (exec_b (exec_k m) b s2 o)).
+        * assert (HB' : res_rel (mk X (kn k) X) (exec_b (exec_k m) b s1 o) (exec_b (exec_k m) b s2 o)).
           { apply HB; try assumption. eapply rel_sub; [exact H|].
             intros; apply CS; apply in_or_app; right; apply in_or_app; auto. }
           destruct (exec_b (exec_k m) b s1 o) as [[sg1 t1] o1]. destruct (exec_b (exec_k m) b s2 o) as [[sg2 t2] o2].
           destruct HB' as [E1 [E2 E3]]. simpl in E1, E2, E3. subst sg2 o2.
           destruct sg1; simpl in E3; try (apply res_rel_err; exact I).
-          -- apply IW; try assumption. unfold conv_while. apply andb_true_iff. split; [apply subset_In; exact CS | exact CB].
+          -- apply IW; assumption.
           -- split; [reflexivity|]. split; [reflexivity|]. exact E3.
-          -- apply IW; try assumption. unfold conv_while. apply andb_true_iff. split; [apply subset_In; exact CS | exact CB].
-      + intros x i hi b knn s1 s2 o NC CV H. unfold conv_for in CV. apply andb_true_iff in CV.
-        destruct CV as [CS CB]. pose proof (proj1 (subset_In _ _) CS) as CS'. clear CS. rename CS' into CS. unfold for_step in CS.
-        set (Y := live_for x b knn) in *.
+          -- apply IW; assumption.
+      + intros x i hi b e k s1 s2 o NCb NCe CV H. pose proof CV as CV0. unfold conv_for in CV.
+        apply andb_true_iff in CV. destruct CV as [CV CE]. apply andb_true_iff in CV. destruct CV as [CS CB].
+        pose proof (proj1 (subset_In _ _) CS) as CS'. clear CS. rename CS' into CS. unfold for_step in CS.
+        set (Y := live_for x b e k) in *.
         simpl.
         destruct (Z.leb hi i).
-        * split; [reflexivity|]. split; [reflexivity|]. simpl.
+        * apply HB; try assumption.
           eapply rel_sub; [exact H|]. intros; apply CS; apply in_or_app; auto.
-        * assert (HB' : res_rel (mk Y knn Y) (exec_b (exec_k m) b (upd s1 x i) o) (exec_b (exec_k m) b (upd s2 x i) o)).
+        * assert (HB' : res_rel (mk Y (kn k) Y) (exec_b (exec_k m) b (upd s1 x i) o) (exec_b (exec_k m) b (upd s2 x i) o)).
           { apply HB; try assumption. eapply rel_upd; [exact H|].
             intros y Hy Hne. apply CS. apply in_or_app. right. apply In_remove. auto. }
           destruct (exec_b (exec_k m) b (upd s1 x i) o) as [[sg1 t1] o1].
           destruct (exec_b (exec_k m) b (upd s2 x i) o) as [[sg2 t2] o2].
           destruct HB' as [E1 [E2 E3]]. simpl in E1, E2, E3. subst sg2 o2.
           destruct sg1; simpl in E3; try (apply res_rel_err; exact I).
-          -- apply IF; try assumption. unfold conv_for. apply andb_true_iff. split; [apply subset_In; exact CS | exact CB].
+          -- apply IF; assumption.
           -- split; [reflexivity|]. split; [reflexivity|]. exact E3.
-          -- apply IF; try assumption. unfold conv_for. apply andb_true_iff. split; [apply subset_In; exact CS | exact CB].
+          -- apply IF; assumption.
   Qed.
 
   Theorem live_sound : forall n ss k s1 s2 o,
     nocall ss = true -> conv_b ss k = true -> rel (live_b ss k) s1 s2 ->
     res_rel k (exec n ss s1 o) (exec n ss s2 o).
   Proof.
-    intros n. unfold exec. apply (live_sound_struct (exec_k n)); [apply exec_k_live | apply exec_k_sig].
+    intros n. unfold exec. apply (live_sound_struct (exec_k n)). apply exec_k_live.
   Qed.
 End Rel.
